@@ -101,6 +101,29 @@ def hard_bc_case(rng, Bs=(10, 12, 20, 30), nmin=6, nmax=11, tries=60):
     return B, vals
 
 
+def _bfd_count(vals, B):
+    bins = []
+    for x in sorted(vals, reverse=True):
+        fit = [b for b in bins if sum(b) + x <= B]
+        if fit:
+            max(fit, key=sum).append(x)
+        else:
+            bins.append([x])
+    return len(bins)
+
+
+def hard_bc_pair(rng, tries=400):
+    """one item list and two different bin sizes such that bin-completion's branching search runs for both
+    (state keyed on the items alone would leak from one call to the other)"""
+    import math
+    for _ in range(tries):
+        B, vals = hard_bc_case(rng)
+        others = [b for b in range(max(vals), B + 8) if b != B and _bfd_count(vals, b) > math.ceil(sum(vals) / b)]
+        if others:
+            return vals, B, rng.choice(others)
+    return vals, B, B + 1
+
+
 def planted_packing(rng, nbins, B, max_per_bin=5):
     """items that fit exactly into nbins full bins (OPT = nbins when all bins are full)"""
     vals = []
